@@ -81,6 +81,8 @@ def execute(prop, sc, extra_files=()):
             return {"viol": 0, "cov": {"skipped": "binding self-test failed"}}
         n_h, bad_h = 0, []
         if extra_files:
+            # (a bounded number of process traces, the largest ones: the thorough tiers produce hundreds)
+            extra_files = sorted(extra_files, key=lambda x: -os.path.getsize(x[0]))[:64]
             jobs = []
             for i, (stf, behf) in enumerate(extra_files):
                 d = sc.path("suite_h%d.ndjson" % i)
